@@ -51,6 +51,16 @@ def _isinstance(ex, st, ctx, v, cls, node):
         return z3.BoolVal(True)
     if name == "bytes":
         return is_Opq(v)
+    if name in ("Mapping", "collections.abc.Mapping", "MutableMapping"):
+        return z3.Or(z3.And(is_Ref(v), ty(rval(v)) == T_DICT), z3.And(is_Opq(v), z3.Function("u_isinst", I, S, B)(oid(v), sv("Mapping"))))
+    if name in ("Sequence", "collections.abc.Sequence"):
+        return z3.Or(is_Str(v), z3.And(is_Ref(v), z3.Or(ty(rval(v)) == T_LIST, ty(rval(v)) == T_TUPLE)),
+                     z3.And(is_Opq(v), z3.Function("u_isinst", I, S, B)(oid(v), sv("Sequence"))))
+    if o[0] in ("builtin", "module") and "." in name and name.split(".")[-1][:1].isupper():
+        # a class the repository does not define (e.g. pottery's RedisDict bound at run time): only an opaque
+        # external object can be an instance of it (A2)
+        ex.trusted.add("external class " + name)
+        return z3.And(is_Opq(v), z3.Function("u_isinst", I, S, B)(oid(v), sv(name)))
     ex.unsupported(st, ctx, "isinstance(_, %s)" % name, node)
     return z3.BoolVal(False)
 
